@@ -8,7 +8,7 @@ seed="$(realpath "$1")"; shift
 wt="$(mktemp -d /tmp/seed-wt.XXXXXX)"; out="$(mktemp -d /tmp/seed-out.XXXXXX)"
 cleanup() { git -C /repo worktree remove --force "$wt" >/dev/null 2>&1; rm -rf "$wt" "$out"; }
 trap cleanup EXIT
-rmdir "$wt"; git -C /repo worktree add -q --detach "$wt" HEAD || exit 2
+rmdir "$wt"; git -C /repo worktree add -q --detach "$wt" "${SEED_BASE:-HEAD}" || exit 2
 clean=skip; mutated=skip
 if [ -f "$seed/demo.sh" ]; then timeout 600 bash "$seed/demo.sh" "$wt" >"$out/demo-clean.log" 2>&1; clean=$?; fi
 git -C "$wt" checkout -q -- . ; git -C "$wt" clean -fdq
